@@ -39,7 +39,7 @@ def build(repo='/repo'):
 def search(pid, violation, repo, seed, budget_ms=20000):
     exe = build(repo)
     focus = violation.get('function', '')
-    p = subprocess.run([exe, 'search', str(seed + 1), str(budget_ms), focus], stdout=subprocess.PIPE, stderr=subprocess.DEVNULL,
+    p = subprocess.run([exe, 'search', str(seed + 1), str(budget_ms), focus, pid], stdout=subprocess.PIPE, stderr=subprocess.DEVNULL,
                        text=True, timeout=budget_ms / 1000 + 120)
     line = (p.stdout.strip().split('\n') or [''])[-1]
     try:
@@ -47,8 +47,8 @@ def search(pid, violation, repo, seed, budget_ms=20000):
     except ValueError:
         return {'found': False, 'error': 'unparsable witness output', 'raw': p.stdout[-500:]}
     if w.get('found'):
-        w['note'] = ('input found by bounded native search on the real crate (real hashbrown); it violates the oracle of the contracts, '
-                     'not necessarily the very clause that failed in Verus')
+        w['note'] = ('input found by bounded native search on the real crate (real hashbrown): random operation sequences, each step judged '
+                     'against an executable rendering of the contracts for that operation; only failures tagged with this property count')
         w['rerun'] = rerun_cmd(w)
     return w
 
